@@ -61,15 +61,15 @@ theorem addField_inv {s : State} (hI : InvCore s) (g : Nat) (n : Name) (c : Cont
     · exact hI.linkFrame k o hk
     · obtain ⟨rfl, rfl⟩ := Prod.mk.inj hk; exact hg
   · intro h hd hh hc k hk
-    simp only [List.mem_append, List.mem_singleton] at hk ⊢
+    simp only [List.mem_append, List.mem_singleton] at hk
     rcases getElem?_snoc hh with ⟨_, hh'⟩ | ⟨rfl, rfl⟩
     · have hlt' := hI.handleOidLt h hd hh'
       rcases hk with hk | hk
-      · exact Or.inl (hI.handleLink h hd hh' hc k hk)
+      · exact hI.handleLink h hd hh' hc k hk
       · have := (Prod.mk.inj hk).2; omega
     · rcases hk with hk | hk
       · have := hI.oidLt k _ hk; simp at this
-      · right; rw [(Prod.mk.inj hk).1]
+      · rw [(Prod.mk.inj hk).1]; exact ⟨rfl, by simp, rfl⟩
   · intro h hd hh
     simp only [List.length_append, List.length_cons, List.length_nil]
     rcases getElem?_snoc hh with ⟨_, hh'⟩ | ⟨rfl, rfl⟩
@@ -93,8 +93,7 @@ theorem removeBoth_inv {s : State} (hI : InvCore s) (k : Key) :
   · intro x o hx; exact hI.oidLt x o (mem_erase.1 hx).1
   · intro x o hx; exact hI.linkFrame x o (mem_erase.1 hx).1
   · intro h hd hh hc x hx
-    rw [mem_erase] at hx ⊢
-    exact ⟨hI.handleLink h hd hh hc x hx.1, hx.2⟩
+    exact hI.handleLink h hd hh hc x (mem_erase.1 hx).1
 
 theorem delItem_inv {s : State} (hI : InvCore s) (g : Nat) (n : Name) : InvCore (delItem s g n).state := by
   unfold delItem
@@ -135,7 +134,8 @@ theorem invalidate_handle {s : State} {h j : Nat} {hd : Handle} (hh : (invalidat
     · next he => exact ⟨rfl, rfl, rfl, rfl, fun hne => absurd he.symm hne⟩
     · exact ⟨rfl, rfl, rfl, rfl, fun _ => rfl⟩
 
-theorem invalidate_inv {s : State} (hI : InvCore s) {h : Nat} (hh : h ∉ s.cols.map (·.2)) : InvCore (invalidate s h) := by
+theorem invalidate_inv {s : State} (hI : InvCore s) {h : Nat}
+    (hh : ∀ hd, s.handles[h]? = some hd → ∀ e ∈ s.links, e.2 ≠ hd.oid) : InvCore (invalidate s h) := by
   refine { colsNodup := hI.colsNodup, linksNodup := hI.linksNodup, sameKeys := hI.sameKeys, sameObj := ?_,
            handleInj := hI.handleInj, oidInj := hI.oidInj, oidLt := hI.oidLt,
            fileNodup := hI.fileNodup, frameInj := hI.frameInj,
@@ -144,12 +144,15 @@ theorem invalidate_inv {s : State} (hI : InvCore s) {h : Nat} (hh : h ∉ s.cols
   · intro k j hk
     obtain ⟨hd, h1, h2⟩ := hI.sameObj k j hk
     have hne : j ≠ h := by
-      intro he; subst he; exact hh (List.mem_map.2 ⟨(k, j), hk, rfl⟩)
+      intro he; subst he; exact hh hd h1 _ h2.2.2.2.2 rfl
     refine ⟨hd, ?_, h2⟩
     simp only [invalidate, List.getElem?_modify, h1]
     simp [Ne.symm hne]
   · intro j hd hj hc k hk
-    obtain ⟨hd0, h0, ho, hcl, _, _, _⟩ := invalidate_handle hj
+    obtain ⟨hd0, h0, ho, hcl, how, hhm, hsame⟩ := invalidate_handle hj
+    have hne : j ≠ h := by
+      intro he; subst he; exact hh hd0 h0 _ hk ho
+    rw [hsame hne]
     exact hI.handleLink j hd0 h0 (by rw [← hcl]; exact hc) k (by rw [← ho]; exact hk)
   · intro j hd hj
     obtain ⟨hd0, h0, ho, _⟩ := invalidate_handle hj
@@ -223,7 +226,7 @@ theorem ensureValid_ok {s : State} {h : Nat} {hd : Handle} (hv : ensureValid s h
       · cases hv
 
 theorem fieldName_ok {s : State} (hI : InvCore s) {h : Nat} {k : Name} (hn : fieldName s h = .ok k) :
-    ∃ hd g, s.handles[h]? = some hd ∧ hd.owner = some g ∧ ((g, k), h) ∈ s.cols := by
+    ∃ hd g, s.handles[h]? = some hd ∧ hd.owner = some g ∧ ((g, k), hd.oid) ∈ s.links := by
   unfold fieldName at hn
   split at hn
   · cases hn
@@ -233,11 +236,37 @@ theorem fieldName_ok {s : State} (hI : InvCore s) {h : Nat} {k : Name} (hn : fie
     · next n hnm =>
       cases hn
       obtain ⟨g, hg⟩ := (nameOfVal_eq_some hI.oidInj).1 hnm
-      have hcol := hI.handleLink h hd hh hc _ hg
-      obtain ⟨hd', h1, _, _, h4, _, _⟩ := hI.sameObj _ _ hcol
-      rw [hh] at h1; cases h1
-      exact ⟨hd, g, hh, h4, hcol⟩
+      exact ⟨hd, g, hh, (hI.handleLink h hd hh hc _ hg).2.1, hg⟩
     · cases hn
+
+/-- `field.writeable()`: one more field object around the same group -/
+theorem viewField_inv {s : State} (hI : InvCore s) (h : Nat) : InvCore (viewField .repaired s h).state := by
+  unfold viewField
+  split
+  · exact hI
+  next hd hv =>
+  obtain ⟨hh, hc, hvv⟩ := ensureValid_ok hv
+  simp only [Res.state, Bool.false_eq_true, if_false]
+  refine { colsNodup := hI.colsNodup, linksNodup := hI.linksNodup, sameKeys := hI.sameKeys, sameObj := ?_,
+           handleInj := hI.handleInj, oidInj := hI.oidInj, oidLt := hI.oidLt,
+           fileNodup := hI.fileNodup, frameInj := hI.frameInj,
+           frameName := hI.frameName, frameDs := hI.frameDs, fdsLen := hI.fdsLen, linkFrame := hI.linkFrame,
+           handleLink := ?_, handleOidLt := ?_ }
+  · intro k j hk
+    obtain ⟨hd', h1, h2⟩ := hI.sameObj k j hk
+    exact ⟨hd', getElem?_snoc_lt h1, h2⟩
+  · intro j hd' hj hcl k hk
+    rcases getElem?_snoc hj with ⟨_, hj'⟩ | ⟨_, rfl⟩
+    · exact hI.handleLink j hd' hj' hcl k hk
+    · have := hI.handleLink h hd hh hc k hk
+      exact ⟨rfl, this.2.1, this.2.2⟩
+  · intro j hd' hj
+    rcases getElem?_snoc hj with ⟨_, hj'⟩ | ⟨_, rfl⟩
+    · exact hI.handleOidLt j hd' hj'
+    · exact hI.handleOidLt h hd hh
+
+theorem viewField_frames (v : Variant) (s : State) (h : Nat) : s.dfs = (viewField v s h).state.dfs ∧ s.file = (viewField v s h).state.file := by
+  unfold viewField; split <;> exact ⟨rfl, rfl⟩
 
 theorem moveField_cross_inv {s : State} (hI : InvCore s) (h g : Nat) (n : Name) (hd : Handle) (hg : g ∈ s.file.map (·.2))
     (hv : ensureValid s h = .ok hd) :
@@ -261,7 +290,7 @@ theorem moveField_cross_inv {s : State} (hI : InvCore s) (h g : Nat) (n : Name) 
       split
       · exact hI1
       · next k hk =>
-        obtain ⟨hd1, g', hh1, ho1, hcol⟩ := fieldName_ok hI1 hk
+        obtain ⟨hd1, g', hh1, ho1, hlk⟩ := fieldName_ok hI1 hk
         -- the handle is the same object as before the copy
         have hsame : hd1 = hd := by
           have h0 := (ensureValid_ok hv).1
@@ -273,16 +302,16 @@ theorem moveField_cross_inv {s : State} (hI : InvCore s) (h g : Nat) (n : Name) 
         subst hsame
         rw [hog] at ho1
         cases ho1
-        rw [dropField_ok hI1 (mem_keys_of_mem hcol)]
+        rw [dropField_ok hI1 ((hI1.sameKeys _).2 (mem_keys_of_mem hlk))]
         simp only [Res.andThen, Res.state]
         apply invalidate_inv (removeBoth_inv hI1 (og, k))
-        simp only [List.mem_map, not_exists, not_and]
-        intro e he heq
-        rw [mem_erase] at he
-        have : e.1 = (og, k) := by
-          have := injective hI1.handleInj (k := e.1) (k' := (og, k)) (v := h) (by rw [← heq]; exact he.1) hcol
-          exact this
-        exact he.2 this
+        intro hd2 hh2 e he heq
+        have hh2' : s1.handles[h]? = some hd2 := hh2
+        rw [hh1] at hh2'; cases hh2'
+        have he' : e ∈ erase s1.links (og, k) := he
+        rw [mem_erase] at he'
+        have : e.1 = (og, k) := injective hI1.oidInj (k := e.1) (k' := (og, k)) (v := hd1.oid) (by rw [← heq]; exact he'.1) hlk
+        exact he'.2 this
 
 /-- the dataset-level tables are untouched -/
 def SameFrames (s s' : State) : Prop := s'.dfs = s.dfs ∧ s'.file = s.file ∧ s'.fname = s.fname ∧ s'.fds = s.fds
@@ -587,8 +616,7 @@ theorem removeFrame_inv {s : State} (hI : Inv s) {d : Nat} {fn : Name} {g : Nat}
     have : e.2 = g := functional hI.fileNodup (k := (d, fn)) (by rw [← heq]; exact he) hg
     exact hk.2 (by rw [← hee, this])
   · intro h hd hh hc k hk
-    rw [mem_dropOwner] at hk ⊢
-    exact ⟨hI.handleLink h hd hh hc k hk.1, hk.2⟩
+    exact hI.handleLink h hd hh hc k (mem_dropOwner.1 hk).1
   · intro e; simp only [mem_erase, hI.sameFrames e]
 
 theorem unlink_after_erase {s : State} (hI : Inv s) {d : Nat} {fn : Name} (hk : (d, fn) ∈ keys s.dfs) :
